@@ -163,6 +163,27 @@ type PoolEntry struct {
 	Subscribers    int
 	MaxSubscribers int
 	Flags          uint32
+
+	// usedBlocks[i] is true while a subscriber holds port block i of this address, i.e. the
+	// ports PortRangeStart+i*PortsPerSub .. PortRangeStart+(i+1)*PortsPerSub-1.
+	// Guarded by Manager.poolMu.
+	usedBlocks []bool
+}
+
+// lowestFreeBlock returns the lowest port block index of this address that no subscriber
+// holds, or -1 if every block is taken. The caller must hold Manager.poolMu.
+func (p *PoolEntry) lowestFreeBlock() int {
+	if len(p.usedBlocks) < p.MaxSubscribers {
+		grown := make([]bool, p.MaxSubscribers)
+		copy(grown, p.usedBlocks)
+		p.usedBlocks = grown
+	}
+	for i := 0; i < p.MaxSubscribers; i++ {
+		if !p.usedBlocks[i] {
+			return i
+		}
+	}
+	return -1
 }
 
 // Allocation tracks NAT allocation for a subscriber
@@ -417,9 +438,12 @@ func (m *Manager) AllocateNAT(privateIP net.IP) (*Allocation, error) {
 	defer m.poolMu.Unlock()
 
 	var selectedPool *PoolEntry
-	var poolIndex int
+	var poolIndex, blockIndex int
 	for i := range m.pool {
 		if m.pool[i].Subscribers < m.pool[i].MaxSubscribers {
+			if blockIndex = m.pool[i].lowestFreeBlock(); blockIndex < 0 {
+				continue
+			}
 			selectedPool = &m.pool[i]
 			poolIndex = i
 			break
@@ -430,8 +454,11 @@ func (m *Manager) AllocateNAT(privateIP net.IP) (*Allocation, error) {
 		return nil, fmt.Errorf("NAT pool exhausted: no available public IPs")
 	}
 
-	// Calculate port range for this subscriber (deterministic based on subscriber count)
-	portStart := uint16(m.portRangeStart + (selectedPool.Subscribers * m.portsPerSubscriber))
+	// Calculate port range for this subscriber: the lowest port block of the address that
+	// no subscriber holds. (The block must not be derived from the subscriber count: after
+	// any subscriber but the most recent one is released, the count points at a block that
+	// is still in use.)
+	portStart := uint16(m.portRangeStart + (blockIndex * m.portsPerSubscriber))
 	portEnd := portStart + uint16(m.portsPerSubscriber) - 1
 
 	// Get or create subscriber ID
@@ -477,6 +504,7 @@ func (m *Manager) AllocateNAT(privateIP net.IP) (*Allocation, error) {
 	m.allocationMu.Unlock()
 
 	selectedPool.Subscribers++
+	selectedPool.usedBlocks[blockIndex] = true
 
 	// Log allocation event
 	if m.natLogger != nil {
@@ -523,7 +551,12 @@ func (m *Manager) DeallocateNAT(privateIP net.IP) error {
 	// Update pool count
 	m.poolMu.Lock()
 	if allocation.PoolIndex < len(m.pool) {
-		m.pool[allocation.PoolIndex].Subscribers--
+		entry := &m.pool[allocation.PoolIndex]
+		entry.Subscribers--
+		blockIndex := (int(allocation.PortStart) - m.portRangeStart) / m.portsPerSubscriber
+		if blockIndex >= 0 && blockIndex < len(entry.usedBlocks) {
+			entry.usedBlocks[blockIndex] = false
+		}
 	}
 	m.poolMu.Unlock()
 	verifGate(m, "dealloc.afterCount")
